@@ -7,9 +7,9 @@
 package c12
 
 import (
-	"io"
 	"bytes"
 	"fmt"
+	"io"
 	"os"
 	"os/exec"
 	"path/filepath"
@@ -30,9 +30,13 @@ const rule = "logger kind (sync, async Block/Discard, Console/File/RollingFile l
 
 var handleNames = []string{"h1", "h2", "h3", "h4"}
 
+// allNames adds a handle for the reserved name: the configured root logger is a named logger too
+// (it lists no tags). Only TestC12_Write configures it; everywhere else the built-in root stands in.
+var allNames = append(append([]string{}, handleNames...), log.RootLoggerName)
+
 var handles = func() map[string]*log.LoggerWrapper {
 	m := map[string]*log.LoggerWrapper{}
-	for _, n := range handleNames {
+	for _, n := range allNames {
 		m[n] = log.GetLogger(n)
 	}
 	return m
@@ -89,13 +93,18 @@ func genLogger(t *rapid.T, label string, under bool) lcfg {
 
 func (c cfg) toMap(skip string) map[string]string {
 	m := map[string]string{"enableCaller": "false", "bufferCap": "10KB", "appender.unused.type": "Discard"}
-	for _, name := range handleNames {
+	for _, name := range allNames {
 		if name == skip {
 			continue
 		}
-		l := c.L[name]
+		l, ok := c.L[name]
+		if !ok {
+			continue
+		}
 		p := "logger." + name + "."
-		m[p+"tags"] = "_c12_" + name
+		if name != log.RootLoggerName {
+			m[p+"tags"] = "_c12_" + name
+		}
 		if l.Layout != "" {
 			m[p+"layout.type"] = l.Layout
 		}
@@ -142,8 +151,11 @@ func rapidLevelFor(name string) string {
 
 func (c cfg) desc() string {
 	var parts []string
-	for _, n := range handleNames {
-		l := c.L[n]
+	for _, n := range allNames {
+		l, ok := c.L[n]
+		if !ok {
+			continue
+		}
 		parts = append(parts, fmt.Sprintf("%s{%s refs=%q layout=%q sep=%v async=%v}", n, l.Kind, l.Levels, l.Layout, l.Separate, l.Async))
 	}
 	return strings.Join(parts, " ")
@@ -191,7 +203,7 @@ func genPayload(t *rapid.T) []byte {
 
 func genScript(t *rapid.T) script {
 	var s script
-	s.Under = rapid.SampledFrom(handleNames).Draw(t, "under")
+	s.Under = rapid.SampledFrom(allNames).Draw(t, "under")
 	s.Mode = rapid.SampledFrom([]string{"plain", "reuse", "reuse", "concurrent"}).Draw(t, "mode")
 	s.Gate = rapid.Bool().Draw(t, "gate")
 	switch s.Mode {
@@ -268,7 +280,7 @@ func runCase(c cfg, s script) error {
 		gate = vk.NewGate()
 		vk.SetBehavior(s.Under+"a0", gate)
 	}
-	var expected [][]byte          // plain/reuse: exact sequence
+	var expected [][]byte           // plain/reuse: exact sequence
 	perWriter := map[int][][]byte{} // concurrent
 	checkRet := func(n int, err error, want int) error {
 		if n != want || err != nil {
@@ -459,7 +471,7 @@ func TestC12_Write(t *testing.T) {
 	n := 0
 	// a handle obtained twice for one name is the same handle (registration is only legal while unconfigured)
 	log.Destroy()
-	for _, name := range handleNames {
+	for _, name := range allNames {
 		if log.GetLogger(name) != handles[name] {
 			t.Fatalf("VERIF-VIOLATION C12: GetLogger(%q) returned a different handle the second time", name)
 		}
@@ -470,7 +482,7 @@ func TestC12_Write(t *testing.T) {
 		_ = os.MkdirAll(c.Dir, 0o755)
 		defer os.RemoveAll(c.Dir)
 		s := genScript(t)
-		for _, name := range handleNames {
+		for _, name := range allNames {
 			c.L[name] = genLogger(t, name, name == s.Under)
 		}
 		if vk.Known("C12:raw-write-dropped-by-level-filter") {
@@ -568,10 +580,10 @@ func strangeName(t *rapid.T, name string) {
 	{
 		if name == "" {
 			name = rapid.OneOf(
-			rapid.SampledFrom([]string{"_c12_h1", "h1.type", "_c12_h2", "h1.tags", "h1.level", "h1.appenderRef", "h1.appenderRef.ref", "h2.appender-ref", "H1", "h1 ", " h1", "h_1", "sink", "appender.sink", "logger.h1", "logger", "h1.", ".h1", "h1.appenderRef[0]", "h5", "root", "", "_c12_h1", "_c12_h2", "_c12_h3", "_c12_*", "Rec", "Logger"}),
-			rapid.StringMatching(`h[1-4]\.[a-zA-Z]{1,12}`),
-			rapid.StringMatching(`[a-z]{1,6}`),
-		).Draw(t, "name")
+				rapid.SampledFrom([]string{"_c12_h1", "h1.type", "_c12_h2", "h1.tags", "h1.level", "h1.appenderRef", "h1.appenderRef.ref", "h2.appender-ref", "H1", "h1 ", " h1", "h_1", "sink", "appender.sink", "logger.h1", "logger", "h1.", ".h1", "h1.appenderRef[0]", "h5", "root", "", "_c12_h1", "_c12_h2", "_c12_h3", "_c12_*", "Rec", "Logger"}),
+				rapid.StringMatching(`h[1-4]\.[a-zA-Z]{1,12}`),
+				rapid.StringMatching(`[a-z]{1,6}`),
+			).Draw(t, "name")
 		}
 		if name == "root" || name == "" {
 			name = "rootx"
@@ -691,7 +703,6 @@ func TestRegress_C12(t *testing.T) {
 	}
 	log.Destroy()
 }
-
 
 // ---------------------------------------------------------------- overflow with a recycled buffer
 
